@@ -22,9 +22,37 @@
         `OpenersBottom`, pos, posMax, level, linkLevel, src, srcmap unchanged; what may change is
         the memo and the code-span cache.  `skip_token_quiet` the same for `skip_token`.
      `skip_token_memo_hit`, `skip_token_memo_entry`, `memo_level_dependent` — the memo.
+  3. RANGES
+     `inline_children_ordered`, `finish_children_ordered` — ordered, non-overlapping sibling ranges
+        inside `[tr pos₀, tr pos_end]`, every node well ranged (children inside parents,
+        recursively), for well-formed monotone tables whose keys are line starts (`MapOK`);
+        per rule: `rule<X>_ranges` (`Lemmas/InlineRanges3..6`), emphasis: `scanAndMatch_ranges`.
+  4. OUTPUT OF `finish`
+     `no_placeholder_after_finish` — no `EmphMarker` at any depth; with an emphasis-like rule the
+        text normal form of C14 at every depth (`allNF_joinAllN`, from `C14.join_normal_form`).
+     `link_url_from_pipeline`, `fromPipeline_safe` — every emitted url is the empty default, an
+        accepted result of the inline / autolink pipeline, or a stored reference destination.
+
+  OPEN (not proved here):
+   * no-panic of the WHOLE tokenizer.  Proved: no fuel panic (`fuel_suffices`); no panic of each
+     rule without look-ahead recursion under `InlineInv` (+ `TrailOK`, `EntStop`).  Missing for the
+     composition: (a) `pos + len ≤ posMax` / boundary for the link rule (needs `Link.parseInlineTail`
+     end bounds), (b) memoised positions of `skip_token` are boundaries `≤` the CURRENT `posMax`
+     (the memo is shared between frames with different `posMax`: needs a tiling argument), (c) no
+     panic of `scan_and_match_delimiters` (the range arithmetic is covered by `scanAndMatch_ranges`
+     in partial-correctness form; the index / `split_off` bounds are not stated as totality).
+   * `skip_token_memo_sound` in the strong form "a memo hit equals a fresh look-ahead run from the
+     current state" is FALSE in general (`memo_level_dependent`); true form proved:
+     `skip_token_memo_entry`.  A positive theorem under "the nesting limit is never reached"
+     needs a simulation between runs at different levels; not done.
+   * text normal form of the output when NO emphasis-like rule is configured (then `finish` does
+     not join): needs "`trailing_text_push/pop` never leave adjacent or empty texts" through the
+     tokenizer (`C14.push_no_adjacent`, `C14.pop_no_adjacent` give the steps); only "no
+     `EmphMarker`" is proved for that case.
 -/
 import MdIt.Lemmas.InlineFuel
 import MdIt.Lemmas.InlineVals2
+import MdIt.Lemmas.InlineRanges7
 
 namespace MdIt.Inline
 open MdIt.InlineOps (Srcmap getSourcePosFor getMap byteLen slice)
@@ -120,66 +148,6 @@ theorem skip_token_quiet (cfg : Cfg) (f : Nat) (st : IState) (hm : MemoInv st)
   exact ⟨a, b, d, c⟩
 
 /-! ### link / image: the look-ahead verdict is the real extent -/
-
-theorem parseLinkLabel_pos {skip : IState → Except Panic IState} {fuel : Nat} {st : IState}
-    {start : Nat} {en : Bool} {o : Option Nat} {st' : IState}
-    (h : parseLinkLabel skip fuel st start en = .ok (o, st')) : st'.pos = st.pos := by
-  unfold parseLinkLabel at h
-  simp only at h
-  split at h
-  · simp at h
-  · simp only [Except.ok.injEq, Prod.mk.injEq] at h; rw [← h.2]
-  · simp only [Except.ok.injEq, Prod.mk.injEq] at h; rw [← h.2]
-
-theorem parseLinkRef_pos {cfg : Cfg} {skip : IState → Except Panic IState} {fuel : Nat} {st : IState}
-    {ls le : Nat} {o : Option LinkRes} {st' : IState}
-    (h : parseLinkRef cfg skip fuel st ls le = .ok (o, st')) : st'.pos = st.pos := by
-  unfold parseLinkRef at h
-  split at h
-  · simp at h
-  · next w hw =>
-    clear hw
-    simp only at h
-    split at h
-    · simp at h
-    · next ml pos st1 hsec =>
-      have hp1 : st1.pos = st.pos := by
-        split at hsec
-        · split at hsec
-          · simp at hsec
-          · next x st2 hl =>
-            split at hsec
-            · simp at hsec
-            · simp only [Except.ok.injEq, Prod.mk.injEq] at hsec
-              rw [← hsec.2.2]; exact parseLinkLabel_pos hl
-          · next st2 hl =>
-            simp only [Except.ok.injEq, Prod.mk.injEq] at hsec
-            rw [← hsec.2.2]; exact parseLinkLabel_pos hl
-        · simp only [Except.ok.injEq, Prod.mk.injEq] at hsec
-          rw [← hsec.2.2]
-      split at h
-      · simp only [Except.ok.injEq, Prod.mk.injEq] at h; rw [← h.2]; exact hp1
-      · split at h
-        · simp at h
-        · split at h
-          · simp only [Except.ok.injEq, Prod.mk.injEq] at h; rw [← h.2]; exact hp1
-          · simp only [Except.ok.injEq, Prod.mk.injEq] at h; rw [← h.2]; exact hp1
-
-/-- `parse_link` restores `state.pos` (unconditionally) -/
-theorem parseLink_pos {cfg : Cfg} {skip : IState → Except Panic IState} {fuel : Nat} {st : IState}
-    {pos : Nat} {en : Bool} {o : Option LinkRes} {st' : IState}
-    (h : parseLink cfg skip fuel st pos en = .ok (o, st')) : st'.pos = st.pos := by
-  unfold parseLink at h
-  split at h
-  · simp at h
-  · next st1 hl =>
-    simp only [Except.ok.injEq, Prod.mk.injEq] at h; rw [← h.2]; exact parseLinkLabel_pos hl
-  · next le st1 hl =>
-    simp only at h
-    split at h
-    · simp at h
-    · simp only [Except.ok.injEq, Prod.mk.injEq] at h; rw [← h.2]; exact parseLinkLabel_pos hl
-    · rw [parseLinkRef_pos h]; exact parseLinkLabel_pos hl
 
 /-- **silent = real (the generic link rule).**  Both modes run the same `parse_link`; look-ahead
     answers `end - pos`, real mode answers `end - pos'` with `pos'` where the nested tokenizer run
@@ -465,6 +433,51 @@ theorem fromPipeline_safe {cfg : Cfg} {u : List Nat} (h : FromPipeline cfg u)
       · simp at hurl
   · exact hrefs m k e hm hmem
 
+/-! ## 3. source ranges -/
+
+/-- **The children the inline parser produces have ordered, non-overlapping ranges.**
+    For a per-line table that is well formed, monotone (`C05.MonoMap`, so `C05.translate_mono`
+    applies) and whose keys are line starts of the inline text (`KeysAfterLF`): the children list
+    `tokenize` builds lies, in order and without overlap, inside `[tr pos₀, tr pos_end]`, where
+    `pos₀` is where `trim_src` put the cursor and `pos_end` where the loop stopped; and every node
+    is well ranged — its own children lie inside its range, ordered, recursively (wrappers made by
+    the delimiter matching, link / image labels, code-span and autolink texts).  No fuel bound and
+    no no-panic hypothesis is needed: the statement is about every successful run. -/
+theorem inline_children_ordered (cfg : Cfg) {content : List Char} {mapping : Srcmap}
+    (hm : MapOK content mapping) {cs : List Node} (h : parseInline cfg content mapping = .ok cs) :
+    ∃ lo hi posEnd, getSourcePosFor mapping (trimSrc content).1 = .ok lo ∧
+      getSourcePosFor mapping posEnd = .ok hi ∧ OrderedN lo hi cs ∧ WellRangedList cs := by
+  unfold parseInline tokenize at h
+  split at h
+  · simp at h
+  · next st hst =>
+    simp only [Except.ok.injEq] at h; subst h
+    obtain ⟨lo, hlo⟩ := C05.translate_total mapping hm.wf (trimSrc content).1
+    have hinit : RInv lo (IState.init content mapping) :=
+      ⟨⟨lo, hlo, Nat.le_refl _⟩, trivial, markersOK_nil, by intro init last hcs; simp [IState.init] at hcs⟩
+    obtain ⟨hs, hmm, hri⟩ := ranges_induction cfg _ _ lo _ _ hm hst hinit
+    obtain ⟨hi, hhi, hord⟩ := hri.ord
+    have e1 : st.srcmap = mapping := hmm
+    rw [e1] at hhi
+    exact ⟨lo, hi, st.pos, hlo, hhi, hord, hri.deep⟩
+
+/-- the same for the output of `finish` (the post pass keeps order and enclosure) -/
+theorem finish_children_ordered (cfg : Cfg) {content : List Char} {mapping : Srcmap}
+    (hm : MapOK content mapping) {cs : List Node} (h : parseFinish cfg content mapping = .ok cs) :
+    ∃ lo hi posEnd, getSourcePosFor mapping (trimSrc content).1 = .ok lo ∧
+      getSourcePosFor mapping posEnd = .ok hi ∧ OrderedN lo hi cs ∧ WellRangedList cs := by
+  unfold parseFinish at h
+  split at h
+  · simp at h
+  · next cs0 hp =>
+    simp only [Except.ok.injEq] at h; subst h
+    obtain ⟨lo, hi, pe, h1, h2, h3, h4⟩ := inline_children_ordered cfg hm hp
+    refine ⟨lo, hi, pe, h1, h2, ?_⟩
+    unfold finish
+    split
+    · exact od_finish_join ⟨h3, h4⟩
+    · exact ⟨h3, h4⟩
+
 /-! ## non-vacuity examples -/
 
 /-- a small configuration for examples: every rule, `*` emphasis, no tables -/
@@ -522,6 +535,32 @@ example : verdict (ruleEntity (exCfg 100) { exSt 1 with posMax := 3 } true) = .o
 -- smaller than the number of blanks to cut makes `map_end - count` underflow
 example : verdict (ruleNewline { exSt 6 with children := [Node.newText "x   ".toList (some (0, 2))] } false)
     = .error .underflow := by decide +kernel
+
+-- `MapOK` is satisfiable for a two-line text (second line behind a block-quote marker in the
+-- source), and the produced ranges are what `inline_children_ordered` says:
+theorem exMapOK : MapOK "a *b*\nc".toList [(0, 0), (6, 8)] := by
+  refine ⟨⟨⟨0, _, rfl⟩, by decide⟩, ?_, ?_⟩
+  · intro i k1 v1 k2 v2 h1 h2
+    match i, h1, h2 with
+    | 0, h1, h2 =>
+      simp only [List.getElem?_cons_zero, List.getElem?_cons_succ, Option.some.injEq, Prod.mk.injEq] at h1 h2
+      omega
+    | 1, h1, h2 => simp at h2
+    | n + 2, h1, h2 => simp at h1
+  · intro i k v h hk
+    match i, h with
+    | 0, h => simp only [List.getElem?_cons_zero, Option.some.injEq, Prod.mk.injEq] at h; omega
+    | 1, h =>
+      simp only [List.getElem?_cons_succ, List.getElem?_cons_zero, Option.some.injEq, Prod.mk.injEq] at h
+      obtain ⟨rfl, rfl⟩ := h
+      exact ⟨"a *b*".toList, "c".toList, by decide, by decide +kernel⟩
+    | n + 2, h => simp at h
+
+example : (match parseInline (exCfg 100) "a *b*\nc".toList [(0, 0), (6, 8)] with
+    | .ok cs => cs.map (fun n => (n.range, n.children.map (·.range)))
+    | .error _ => []) =
+    [(some (0, 2), []), (some (2, 5), [some (3, 4)]), (some (5, 8), []), (some (8, 9), [])] := by
+  decide +kernel
 
 /-- the projection of a result to its node values (for examples) -/
 def vals (r : Except Panic (List Node)) : Except Panic (List Val) :=
